@@ -11,6 +11,8 @@ mod storage;
 mod pubsub;
 mod replication;
 mod monitor;
+#[cfg(ferrous_verif)]
+mod verif;
 
 use std::process;
 use error::Result;
